@@ -29,6 +29,7 @@ type runSpec struct {
 	BudgetS  int            `json:"budget_s,omitempty"`
 	Reach    []string       `json:"reach,omitempty"`
 	Native   string         `json:"native,omitempty"` // "data" (deterministic replay) or "stress"
+	Labels   []string       `json:"labels,omitempty"` // assertion labels (or "panic") that belong to this property; empty = all
 }
 
 type propSpec struct {
@@ -114,6 +115,8 @@ func checkCmd(args []string) int {
 		writeEvidence(prop, tier, seed, spec, nil, nil, time.Since(t0), 0, []string{"load failed: " + err.Error()}, nil)
 		return 2
 	}
+	harnessNames = in.Harnesses()
+	defer cleanupNative()
 	nw := runtime.NumCPU()
 	if nw > 16 {
 		nw = 16
@@ -125,6 +128,7 @@ func checkCmd(args []string) int {
 	var knownHit []string
 	nReplay := 0
 	nativeRuns := 0
+	var otherProps []string
 	for _, rs := range runs {
 		cfg := &engine.Config{Harness: rs.Harness, MaxPreempt: rs.P, Gran: rs.Gran, PoolReuse: true, MapOrder: rs.MapOrder, TimerBudget: rs.Timers, Params: rs.Params}
 		if rs.Reuse != nil {
@@ -172,6 +176,18 @@ func checkCmd(args []string) int {
 		}
 		sort.Strings(sigs)
 		for _, sig := range sigs {
+			if len(rs.Labels) > 0 {
+				mine := false
+				for _, l := range rs.Labels {
+					if bySig[sig][0].Label == l {
+						mine = true
+					}
+				}
+				if !mine {
+					otherProps = append(otherProps, rs.Harness+": "+sig)
+					continue
+				}
+			}
 			var kf *finding
 			for i := range ff.Findings {
 				f := &ff.Findings[i]
@@ -214,12 +230,15 @@ func checkCmd(args []string) int {
 			exit = 2
 		}
 	}
+	evidenceExtra = map[string]interface{}{"violations_belonging_to_other_properties_seen": otherProps, "native_replay_runs": nativeRuns}
 	writeEvidence(prop, tier, seed, spec, runs, results, wall, nViol, problems, knownHit)
 	if exit == 0 {
 		fmt.Printf("OK property=%s tier=%s wall=%.1fs\n", prop, tier, wall.Seconds())
 	}
 	return exit
 }
+
+var evidenceExtra map[string]interface{}
 
 func firstLine(s string) string {
 	s = strings.TrimSpace(s)
@@ -258,37 +277,34 @@ func writeReplay(path, prop string, v *engine.Violation, cfg *engine.Config) {
 	os.WriteFile(path, b, 0o644)
 }
 
-// nativeReplay runs the harness natively (go test with an overlay that injects the harness files and
-// a generated test driver into package rpc) with the counterexample's inputs.
-func nativeReplay(replayPath, harness string, v *engine.Violation, mode string) (bool, string, int) {
+var nativeBin, nativeTmp, nativeBuildErr string
+var harnessNames []string
+
+// buildNative compiles (once per check run) package rpc's test binary with the harness files and a
+// generated driver injected by overlay; nothing is written to /repo.
+func buildNative() {
+	if nativeBin != "" || nativeBuildErr != "" {
+		return
+	}
 	tmp, err := os.MkdirTemp("", "zzreplay")
 	if err != nil {
-		return false, err.Error(), 0
+		nativeBuildErr = err.Error()
+		return
 	}
-	defer os.RemoveAll(tmp)
+	nativeTmp = tmp
 	files, _ := filepath.Glob(filepath.Join(verifDir, "harness", "*.go"))
 	ov := map[string]string{}
 	for _, f := range files {
 		ov[filepath.Join(repoDir, "zz_verif_"+filepath.Base(f))] = f
 	}
-	driver := filepath.Join(tmp, "driver_test.go")
-	os.WriteFile(driver, []byte(fmt.Sprintf(`package rpc
-
-import (
-	"fmt"
-	"testing"
-	"time"
-)
-
-func TestZZReplay(t *testing.T) {
-	zzH_%s()
-	failed := zzFinish(2 * time.Second)
-	for _, f := range failed {
-		fmt.Println("ZZ-FAILED", f)
+	var sb strings.Builder
+	sb.WriteString("package rpc\n\nimport (\n\t\"fmt\"\n\t\"os\"\n\t\"testing\"\n\t\"time\"\n)\n\nfunc TestZZReplay(t *testing.T) {\n\tswitch os.Getenv(\"ZZ_HARNESS\") {\n")
+	for _, h := range harnessNames {
+		fmt.Fprintf(&sb, "\tcase %q:\n\t\tzzH_%s()\n", h, h)
 	}
-	fmt.Println("ZZ-DONE")
-}
-`, harness)), 0o644)
+	sb.WriteString("\tdefault:\n\t\tt.Fatal(\"unknown harness\")\n\t}\n\tfailed := zzFinish(2 * time.Second)\n\tfor _, f := range failed {\n\t\tfmt.Println(\"ZZ-FAILED\", f)\n\t}\n\tfmt.Println(\"ZZ-DONE\")\n}\n")
+	driver := filepath.Join(tmp, "driver_test.go")
+	os.WriteFile(driver, []byte(sb.String()), 0o644)
 	ov[filepath.Join(repoDir, "zz_verif_driver_test.go")] = driver
 	ovb, _ := json.Marshal(map[string]interface{}{"Replace": ov})
 	ovPath := filepath.Join(tmp, "overlay.json")
@@ -298,17 +314,37 @@ func TestZZReplay(t *testing.T) {
 	build.Dir = repoDir
 	build.Env = append(os.Environ(), "GOFLAGS=-mod=mod", "GOPROXY=off", "GOSUMDB=off", "GOTOOLCHAIN=local")
 	if out, err := build.CombinedOutput(); err != nil {
-		return false, "native build failed: " + string(out), 0
+		nativeBuildErr = "native build failed: " + string(out)
+		return
+	}
+	nativeBin = bin
+}
+
+func cleanupNative() {
+	if nativeTmp != "" {
+		os.RemoveAll(nativeTmp)
+	}
+}
+
+// nativeReplay runs the harness natively with the counterexample's inputs ("data": once;
+// "stress": repeatedly under varying GOMAXPROCS until the same assertion fails or the budget ends).
+func nativeReplay(replayPath, harness string, v *engine.Violation, mode string) (bool, string, int) {
+	if os.Getenv("SSASYM_NONATIVE") != "" {
+		return false, "native replay skipped (SSASYM_NONATIVE)", 0
+	}
+	buildNative()
+	if nativeBuildErr != "" {
+		return false, nativeBuildErr, 0
 	}
 	attempts := 1
 	if mode == "stress" {
-		attempts = 300
+		attempts = 200
 	}
 	var last string
 	for i := 0; i < attempts; i++ {
-		cmd := exec.Command("timeout", "60", bin, "-test.run", "^TestZZReplay$", "-test.count=1")
+		cmd := exec.Command("timeout", "60", nativeBin, "-test.run", "^TestZZReplay$", "-test.count=1")
 		cmd.Dir = repoDir
-		cmd.Env = append(os.Environ(), "ZZ_REPLAY="+replayPath, "GOMAXPROCS="+strconv.Itoa(1+i%4))
+		cmd.Env = append(os.Environ(), "ZZ_REPLAY="+replayPath, "ZZ_HARNESS="+harness, "GOMAXPROCS="+strconv.Itoa(1+i%4), "ZZ_JITTER="+strconv.Itoa(i+1))
 		out, _ := cmd.CombinedOutput()
 		last = string(out)
 		switch v.Kind {
@@ -401,6 +437,9 @@ func writeEvidence(prop, tier string, seed int, spec *propSpec, runs []runSpec, 
 		"verif_rev":           gitRev(verifDir),
 		"trusted_base":        []string{"verif/engine (go/ssa symbolic interpreter)", "z3 4.8.12", "harness stubs listed under stubs"},
 	}
+	for k, v := range evidenceExtra {
+		cov[k] = v
+	}
 	ev := map[string]interface{}{
 		"property_id": prop, "tier": tier, "seed": seed, "level": spec.Level, "coverage": cov,
 		"assumptions": spec.Assumptions, "wall_s": wall.Seconds(), "violations": nViol,
@@ -427,6 +466,13 @@ func replayCmd(args []string) int {
 		fmt.Println("   ", t)
 	}
 	v := &engine.Violation{Kind: rf.Kind, Label: rf.Label}
+	if in, err := engine.Load(repoDir, filepath.Join(verifDir, "harness")); err == nil {
+		harnessNames = in.Harnesses()
+	} else {
+		fmt.Println(err)
+		return 2
+	}
+	defer cleanupNative()
 	mode := "stress"
 	ok, out, n := nativeReplay(args[0], rf.Harness, v, mode)
 	fmt.Printf("native runs: %d reproduced: %v\n", n, ok)
